@@ -725,6 +725,10 @@ func (c *Compiler) VerifyModuleIncludes(m parse.Node, submodules map[string]pars
 	}
 	for _, s := range submodules {
 		for _, i := range s.ChildrenByType(parse.NodeInclude) {
+			if i.Name() == s.Name() {
+				// tsort does not treat a self edge as a cycle
+				c.error(i, fmt.Errorf("submodule includes itself"))
+			}
 			g.AddEdge(s.Name(), i.Name())
 		}
 	}
